@@ -15,6 +15,7 @@ import (
 	"strconv"
 
 	"ergo.services/ergo/gen"
+	"ergo.services/ergo/lib"
 	"ergo.services/ergo/net/handshake"
 	"verif.local/vsched"
 	"verif.local/vsched/harn"
@@ -175,12 +176,44 @@ func init() {
 					if count(got, "m3") != 1 {
 						ex.Fail("other-connection-affected", "after the hostile frame a valid frame on ANOTHER connection was handled %d times (receiver log %v)", count(got, "m3"), got)
 					}
+					// a second valid frame arrives on the healthy connection in two halves, and between the halves this
+					// node sends something of its own over that connection: buffers of the shared pool that were
+					// given back twice by the handling of the hostile frame would now be used by both at once
+					m2before := count(handled(w.recs["R"], "M:"), "m2") // (a mutation of the valid frame may itself be a valid m2)
+					half := len(frames[1]) / 2
+					w.Setup("after-half1", func() { good.Write(frames[1][:half]) })
+					w.Setup("own-send", func() {
+						nb.Send(gen.PID{Node: "c@localhost", ID: 1001, Creation: nb.creation}, "outgoing")
+						nb.Send(gen.PID{Node: "c@localhost", ID: 1001, Creation: nb.creation}, "outgoing2")
+					})
+					w.Setup("after-half2", func() { good.Write(frames[1][half:]) })
+					got = handled(w.recs["R"], "M:")
+					if count(got, "m2") != m2before+1 {
+						ex.Fail("other-connection-affected", "after the hostile frame a valid frame that arrived in two halves on ANOTHER connection, with an outgoing message in between, was handled %d times (receiver log %v)", count(got, "m2")-m2before, got)
+					}
 					if callErr != nil || fmt.Sprint(reply) != "re:ping" {
 						ex.Fail("local-process-affected", "after the hostile frame a local call returned %v / %v", reply, callErr)
 					}
 					if !nb.IsAlive() {
 						ex.Fail("node-down", "the node is not alive after the hostile frame")
 					}
+					// the pool of network buffers is shared by every connection of the process: nobody may get
+					// a buffer that somebody else holds as well
+					w.Setup("pool-check", func() {
+						held := map[*lib.Buffer]bool{}
+						var taken []*lib.Buffer
+						for i := 0; i < 16; i++ {
+							b := lib.TakeBuffer()
+							if held[b] {
+								ex.Fail("buffer-pool-corrupted", "after the hostile frame the buffer pool hands the same buffer out twice (take #%d): two connections would overwrite each other's frames", i)
+							}
+							held[b] = true
+							taken = append(taken, b)
+						}
+						for _, b := range taken {
+							lib.ReleaseBuffer(b)
+						}
+					})
 					ex.Release()
 					vsched.Quiet(func() { nb.StopForce() })
 					return fmt.Sprint(got)
